@@ -67,6 +67,8 @@ func scenarios(tier string) []svc.Scenario {
 		{Name: "converter-pair-on-one-tag", Converter: true, Program: []string{"import:P1", "addtag:tag/p=cport:1", "converters:tag/p=conv", "converters:tag/p=conv,conv2", "import:P3"}},
 		// a capture that only continues a stored stream: the newest index file holds nothing but an old, low id
 		{Name: "extension-only-capture", Program: []string{"import:P1+P2", "import:P6", "view.open:v1", "import:P4", "view.open:v2"}},
+		// a client reads converter output through a view that was opened before an import extended the stream
+		{Name: "converter-data-through-held-view", Converter: true, Program: []string{"import:P1", "addtag:tag/p=cport:1", "view.open:v1", "converters:tag/p=conv", "import:P3", "view.data:v1=0/conv"}},
 		{Name: "two-tags", Program: []string{"addtag:tag/p=cport:1", "addtag:tag/d=cdata:foo3", "import:P1", "import:P3"}},
 	}
 	if tier == "thorough" {
